@@ -73,7 +73,14 @@ def parseRoute (s : String) : Option Route :=
     let dop ← optU32 dop
     let (lp, lpBogus) ← slotU32 lp u32max
     let path ← parsePath path
-    let origin ← if origin == ['-'] then some Slot.absent else if origin == ['!'] then some Slot.bogus
+    -- `U<n>`: `Origin(OriginType::Unimplemented(n))` written out directly.  Its origin number (`u8::from`) is n, which
+    -- is all `try_new` / `cmp` read (step b compares the numbers, fix F36); that it is another Rust value than
+    -- `OriginType::from(n)` for n <= 2 is content the comparison never reads (kept in `extra`)
+    let (origin, originRaw) := match origin with
+      | 'U' :: rest => (rest, true)
+      | o => (o, false)
+    let origin ← if originRaw then (natOf origin 255).map Slot.val
+                 else if origin == ['-'] then some Slot.absent else if origin == ['!'] then some Slot.bogus
                  else (natOf origin 255).map Slot.val
     let (med, medBogus) ← slotU32 med u32max
     let lasn ← natOf lasn u32max
@@ -85,8 +92,10 @@ def parseRoute (s : String) : Option Route :=
       | [['6'], a] => (natOf a (2 ^ 128 - 1)).map (true, ·)
       | _ => none
     let extra ← natOf extra u32max
+    -- `Unimplemented(n)` for n > 2 is `OriginType::from(n)`: the same value
+    let originRaw := originRaw && (match origin with | .val o => o ≤ 2 | _ => false)
     -- Invalid attributes under the optional type codes are content the comparison never reads
-    let extra := extra + 4294967296 * (lpBogus.toNat + 2 * medBogus.toNat + 4 * oidBogus.toNat + 8 * clBogus.toNat)
+    let extra := extra + 4294967296 * (lpBogus.toNat + 2 * medBogus.toNat + 4 * oidBogus.toNat + 8 * clBogus.toNat + 16 * originRaw.toNat)
     pure { ibgp := ibgp, dop := dop, localPref := lp, path := path, origin := origin, med := med, localAsn := lasn,
            originatorId := oid, bgpId := bgpid, clusterLen := cl, peerV6 := v6, peerAddr := addr, extra := extra }
   | _ => none
